@@ -16,14 +16,14 @@ CONFIG = {
     },
     "harness": "h_c14",
     "level": "proof",
-    "n": {"quick": 120, "thorough": 3000},
+    "n": {"quick": 80, "thorough": 3000},
     "shrink": True,
     "shard": 250,
     "extra_proof_files": ["ProofsBase", "ProofsQuery", "ProofsSfile", "ProofsLsmA", "ProofsLsmB", "ProofsLsmC", "ProofsLsmD", "ProofsLsmE",
                           "ProofsLsmF", "ProofsLsmG", "ProofsLsmH", "ProofsTs", "ProofsTsAns", "ProofsInmem", "ProofsInmem2", "ProofsInmem3", "ProofsInmemAns"],
     "harness_timeout": {"quick": 900, "thorough": 7200},
     "rule": "corpus (9 minimal witnesses of the four repaired defects and of the mutation classes) and designed histories first (16: the witnesses of the four repaired defects and multi-level / re-creation / restart scenarios, each with a "
-            "battery of ~30 queries after every phase), then seeded histories: 1-3 shards, tsi partitions 1/2/8, MaxIndexLogFileSize 1/200/1MB, "
+            "battery of ~30 queries after every phase), then seeded histories (35% start with a per-measurement churn: 2-4 rounds of write-some / DELETE of one single older series / write-new / DELETE of another older series, no reopen, listings after every step): 1-3 shards, tsi partitions 1/2/8, MaxIndexLogFileSize 1/200/1MB, "
             "series-file compact threshold 0/1/2/4, tag value cache on/off; 4-25 steps of write (1-4 series, 35% re-creations), DELETE with/without "
             "FROM and predicate over all/prefix/suffix/one shard, DROP MEASUREMENT, forced TSI log+level compaction, series-file compaction, cache "
             "snapshot, close/reopen; 0-2 queries after each step. One case = (history prefix, one query, answers of both real stores); "
